@@ -26,8 +26,18 @@ type Contract struct {
 	MustDefer []string // callee names that must be called through defer (so that they also run on a panicking exit)
 	NoStores []string // struct field names that the function (and what it inlines) must never store to
 	FullLoops []string // loop keys: the loop is left only through its header test
+	AfterLoops []*AfterLoop // calls that may only happen after a loop has run to its end
 	Confines  []*Confine // parameters whose contents the function reads only through the listed callees
 	OnSlices  []*OnStore // assertions at every slice expression p[lo:hi] of the named parameter ($lo, $hi)
+}
+
+// AfterLoop: every call of Callee in the function is dominated by the exit of the Nth loop (in block order)
+// whose key contains LoopKey, taken through the loop's own header test: the call cannot be reached without
+// the loop having run to its end. Decided on the control-flow graph (no solver).
+type AfterLoop struct {
+	Callee  string
+	LoopKey string
+	Nth     int
 }
 
 // Confine: the function itself never indexes, slices, copies, converts, stores or returns the named
